@@ -25,6 +25,9 @@ abbrev Store := List (Ip × Bucket)
 def Store.find (s : Store) (ip : Ip) : Option Bucket := (s.find? (·.1 == ip)).map (·.2)
 def Store.set (s : Store) (ip : Ip) (b : Bucket) : Store := (ip, b) :: s.filter (·.1 != ip)
 
+/-- seconds between two passes of `_cleanup_loop` (`asyncio.sleep(300)`) -/
+def cleanupPeriod : Rat := 300
+
 inductive LEv where
   | req (ip : Ip) (t : Rat)
   | cleanup (t : Rat)
@@ -47,4 +50,18 @@ def stepL (c : LCfg) (s : Store) : LEv → Store × Option Bool
 def runL (c : LCfg) : Store → List LEv → List Bool
   | _, [] => []
   | s, e :: es => let (s', o) := stepL c s e; (match o with | some b => [b] | none => []) ++ runL c s' es
+
+/-! ### the refusal line: f"44 Rate limit exceeded. Retry after {retry_after} seconds\r\n" -/
+def rlPrefix : List Nat := [52, 52, 32, 82, 97, 116, 101, 32, 108, 105, 109, 105, 116, 32, 101, 120, 99, 101, 101, 100, 101, 100, 46, 32, 82, 101, 116, 114, 121, 32, 97, 102, 116, 101, 114, 32]
+def rlSuffix : List Nat := [32, 115, 101, 99, 111, 110, 100, 115, 13, 10]
+
+/-- `str(int)` as code points -/
+def intDigits (i : Int) : List Nat :=
+  (if i < 0 then [45] else []) ++ (Nat.toDigits 10 i.natAbs).map Char.toNat
+
+def rateLimitLine (retry : Int) : List Nat := rlPrefix ++ intDigits retry ++ rlSuffix
+
+/-- what `RateLimiter.process_request` returns next to the decision: `none` when admitted -/
+def limiterResponse (retry : Int) (ok : Bool) : Option (List Nat) :=
+  if ok then none else some (rateLimitLine retry)
 end Mw
